@@ -1,4 +1,346 @@
-//! engine `tok` (stub)
-pub fn run(_fields: &[&str]) -> String {
-    "unimplemented".to_string()
+//! engine `tok` — the real HTML tokenizer with a recording, policy-driven sink
+//! (protocol: lean/H5V/Model/HtmlTokDriver.lean)
+use crate::proto::*;
+use html5ever::tendril::StrTendril;
+use html5ever::tokenizer::states::{self, RawKind, State};
+use html5ever::tokenizer::{
+    BufferQueue, Tag, TagKind, Token, TokenSink, TokenSinkResult, Tokenizer, TokenizerOpts,
+};
+use markup5ever::TokenizerResult;
+use std::cell::RefCell;
+
+#[derive(Clone)]
+pub enum Res {
+    Plaintext,
+    Raw(RawKind),
+    Script,
+    Indicator,
+    Continue,
+}
+
+pub struct Rules {
+    pub cdata: bool,
+    pub rules: Vec<(bool, String, Res)>,
+}
+
+pub fn parse_rules(s: &str) -> Option<Rules> {
+    let mut r = Rules {
+        cdata: false,
+        rules: vec![],
+    };
+    for p in s.split(';').filter(|p| !p.is_empty()) {
+        let kv: Vec<&str> = p.split('=').collect();
+        if kv.len() != 2 {
+            return None;
+        }
+        if kv[0] == "cdata" {
+            r.cdata = kv[1] == "1";
+            continue;
+        }
+        let (is_end, nm) = match kv[0].strip_prefix('/') {
+            Some(n) => (true, n),
+            None => (false, kv[0]),
+        };
+        let name = parse_string(nm)?;
+        let res = match kv[1] {
+            "P" => Res::Plaintext,
+            "R0" => Res::Raw(RawKind::Rcdata),
+            "R1" => Res::Raw(RawKind::Rawtext),
+            "R2" => Res::Raw(RawKind::ScriptData),
+            "R3" => Res::Raw(RawKind::ScriptDataEscaped(states::Escaped)),
+            "R4" => Res::Raw(RawKind::ScriptDataEscaped(states::DoubleEscaped)),
+            "S" => Res::Script,
+            "I" => Res::Indicator,
+            "C" => Res::Continue,
+            _ => return None,
+        };
+        r.rules.push((is_end, name, res));
+    }
+    Some(r)
+}
+
+pub fn all_states() -> Vec<State> {
+    use states::*;
+    let raw = [
+        Rcdata,
+        Rawtext,
+        ScriptData,
+        ScriptDataEscaped(Escaped),
+        ScriptDataEscaped(DoubleEscaped),
+    ];
+    let esc = [Escaped, DoubleEscaped];
+    let ids = [Public, System];
+    let mut v = vec![Data, Plaintext, TagOpen, EndTagOpen, TagName];
+    v.extend(raw.iter().map(|&k| RawData(k)));
+    v.extend(raw.iter().map(|&k| RawLessThanSign(k)));
+    v.extend(raw.iter().map(|&k| RawEndTagOpen(k)));
+    v.extend(raw.iter().map(|&k| RawEndTagName(k)));
+    v.extend(esc.iter().map(|&k| ScriptDataEscapeStart(k)));
+    v.push(ScriptDataEscapeStartDash);
+    v.extend(esc.iter().map(|&k| ScriptDataEscapedDash(k)));
+    v.extend(esc.iter().map(|&k| ScriptDataEscapedDashDash(k)));
+    v.extend([
+        ScriptDataDoubleEscapeEnd,
+        BeforeAttributeName,
+        AttributeName,
+        AfterAttributeName,
+        BeforeAttributeValue,
+        AttributeValue(Unquoted),
+        AttributeValue(SingleQuoted),
+        AttributeValue(DoubleQuoted),
+        AfterAttributeValueQuoted,
+        SelfClosingStartTag,
+        BogusComment,
+        MarkupDeclarationOpen,
+        CommentStart,
+        CommentStartDash,
+        Comment,
+        CommentLessThanSign,
+        CommentLessThanSignBang,
+        CommentLessThanSignBangDash,
+        CommentLessThanSignBangDashDash,
+        CommentEndDash,
+        CommentEnd,
+        CommentEndBang,
+        Doctype,
+        BeforeDoctypeName,
+        DoctypeName,
+        AfterDoctypeName,
+    ]);
+    v.extend(ids.iter().map(|&k| AfterDoctypeKeyword(k)));
+    v.extend(ids.iter().map(|&k| BeforeDoctypeIdentifier(k)));
+    v.extend(ids.iter().map(|&k| DoctypeIdentifierDoubleQuoted(k)));
+    v.extend(ids.iter().map(|&k| DoctypeIdentifierSingleQuoted(k)));
+    v.extend(ids.iter().map(|&k| AfterDoctypeIdentifier(k)));
+    v.extend([
+        BetweenDoctypePublicAndSystemIdentifiers,
+        BogusDoctype,
+        CdataSection,
+        CdataSectionBracket,
+        CdataSectionEnd,
+    ]);
+    v
+}
+
+pub fn parse_state(s: &str) -> Option<State> {
+    all_states().into_iter().find(|st| format!("{:?}", st) == s)
+}
+
+#[derive(Clone)]
+enum Rec {
+    Chars(String, u64),
+    Other(String),
+}
+
+pub struct RecSink {
+    rules: Rules,
+    out: RefCell<Vec<Rec>>,
+}
+
+fn opt_str(o: &Option<StrTendril>) -> String {
+    match o {
+        None => "~".into(),
+        Some(s) => show_str(s),
+    }
+}
+
+impl RecSink {
+    fn push(&self, r: Rec) {
+        let mut out = self.out.borrow_mut();
+        if let Rec::Chars(ref s, l) = r {
+            if let Some(Rec::Chars(prev, pl)) = out.last_mut() {
+                prev.push_str(s);
+                *pl = l;
+                return;
+            }
+        }
+        out.push(r);
+    }
+    fn decide(&self, t: &Tag) -> Res {
+        for (is_end, name, res) in &self.rules.rules {
+            if *is_end == (t.kind == TagKind::EndTag) && &*t.name == name.as_str() {
+                return res.clone();
+            }
+        }
+        Res::Continue
+    }
+    pub fn render(&self) -> String {
+        let out = self.out.borrow();
+        let v: Vec<String> = out
+            .iter()
+            .map(|r| match r {
+                Rec::Chars(s, l) => format!("C:{}@{}", show_str(s), l),
+                Rec::Other(s) => s.clone(),
+            })
+            .collect();
+        v.join(";")
+    }
+}
+
+impl TokenSink for RecSink {
+    type Handle = ();
+
+    fn process_token(&self, token: Token, line: u64) -> TokenSinkResult<()> {
+        match token {
+            Token::CharacterTokens(s) => {
+                self.push(Rec::Chars(s.to_string(), line));
+                TokenSinkResult::Continue
+            },
+            Token::NullCharacterToken => {
+                self.push(Rec::Other(format!("N@{}", line)));
+                TokenSinkResult::Continue
+            },
+            Token::TagToken(t) => {
+                let k = if t.kind == TagKind::StartTag { "s" } else { "e" };
+                let attrs: Vec<String> = t
+                    .attrs
+                    .iter()
+                    .map(|a| format!("{}={}", show_str(&a.name.local), show_str(&a.value)))
+                    .collect();
+                self.push(Rec::Other(format!(
+                    "T:{}:{}:{}:{}:[{}]@{}",
+                    k,
+                    show_str(&t.name),
+                    t.self_closing as u8,
+                    t.had_duplicate_attributes as u8,
+                    attrs.join(","),
+                    line
+                )));
+                match self.decide(&t) {
+                    Res::Continue => TokenSinkResult::Continue,
+                    Res::Plaintext => TokenSinkResult::Plaintext,
+                    Res::Raw(k) => TokenSinkResult::RawData(k),
+                    Res::Script => {
+                        self.push(Rec::Other(format!("P:s@{}", line)));
+                        TokenSinkResult::Script(())
+                    },
+                    Res::Indicator => {
+                        self.push(Rec::Other(format!("P:i@{}", line)));
+                        TokenSinkResult::EncodingIndicator(StrTendril::from_slice("x"))
+                    },
+                }
+            },
+            Token::CommentToken(s) => {
+                self.push(Rec::Other(format!("M:{}@{}", show_str(&s), line)));
+                TokenSinkResult::Continue
+            },
+            Token::DoctypeToken(d) => {
+                self.push(Rec::Other(format!(
+                    "D:{}:{}:{}:{}@{}",
+                    opt_str(&d.name),
+                    opt_str(&d.public_id),
+                    opt_str(&d.system_id),
+                    d.force_quirks as u8,
+                    line
+                )));
+                TokenSinkResult::Continue
+            },
+            Token::ParseError(e) => {
+                self.push(Rec::Other(format!("E:{}@{}", show_str(&e), line)));
+                TokenSinkResult::Continue
+            },
+            Token::EOFToken => {
+                self.push(Rec::Other(format!("EOF@{}", line)));
+                TokenSinkResult::Continue
+            },
+        }
+    }
+
+    fn adjusted_current_node_present_but_not_in_html_namespace(&self) -> bool {
+        self.rules.cdata
+    }
+}
+
+pub fn get_opt(opts: &str, key: &str, default: bool) -> bool {
+    for p in opts.split(',') {
+        let kv: Vec<&str> = p.split('=').collect();
+        if kv.len() == 2 && kv[0] == key {
+            return kv[1] == "1";
+        }
+    }
+    default
+}
+
+pub fn parse_inj(s: &str) -> Option<Vec<(usize, String)>> {
+    let s = s.trim();
+    if s == "-" || s.is_empty() {
+        return Some(vec![]);
+    }
+    s.split(',')
+        .map(|p| {
+            let kv: Vec<&str> = p.split(':').collect();
+            if kv.len() != 2 {
+                return None;
+            }
+            Some((kv[0].parse().ok()?, parse_string(kv[1])?))
+        })
+        .collect()
+}
+
+pub fn run(fields: &[&str]) -> String {
+    if fields.len() != 6 {
+        return "bad-case".into();
+    }
+    let state = if fields[1] == "-" {
+        Some(None)
+    } else {
+        parse_state(fields[1]).map(Some)
+    };
+    let last = if fields[2] == "~" {
+        Some(None)
+    } else {
+        parse_string(fields[2]).map(Some)
+    };
+    let chunks: Option<Vec<String>> = fields[4].split('|').map(parse_string).collect();
+    let (Some(state), Some(last), Some(rules), Some(chunks), Some(inj)) = (
+        state,
+        last,
+        parse_rules(fields[3]),
+        chunks,
+        parse_inj(fields[5]),
+    ) else {
+        return "bad-case".into();
+    };
+    let opts = TokenizerOpts {
+        exact_errors: get_opt(fields[0], "exact", false),
+        discard_bom: get_opt(fields[0], "bom", true),
+        profile: get_opt(fields[0], "profile", false),
+        initial_state: state,
+        last_start_tag_name: last,
+    };
+    let sink = RecSink {
+        rules,
+        out: RefCell::new(vec![]),
+    };
+    let tok = Tokenizer::new(sink, opts);
+    let queue = BufferQueue::default();
+    let mut log: Vec<&str> = vec![];
+    let mut pauses = 0usize;
+    for ch in chunks {
+        queue.push_back(StrTendril::from_slice(&ch));
+        let mut guard = 0;
+        loop {
+            guard += 1;
+            if guard > 64 {
+                return "too-many-pauses".into();
+            }
+            match tok.feed(&queue) {
+                TokenizerResult::Done => {
+                    log.push("D");
+                    break;
+                },
+                TokenizerResult::Script(_) => log.push("S"),
+                TokenizerResult::EncodingIndicator(_) => log.push("I"),
+            }
+            if let Some((_, s)) = inj.iter().find(|(k, _)| *k == pauses) {
+                queue.push_front(StrTendril::from_slice(s));
+            }
+            pauses += 1;
+        }
+        if !queue.is_empty() {
+            return format!("QUEUE-NOT-DRAINED {}", tok.sink.render());
+        }
+    }
+    tok.end();
+    format!("{} F={}", tok.sink.render(), log.join(","))
 }
